@@ -17,6 +17,10 @@
          calculate_order_args: SYS holds the overrides, MASK (three characters 0/1) says which
          of xyz / vel / box are handed in (the others are None), CONF is the system the
          engine reads from the configuration file, BOX0 what system.box held before the call
+     prop FLAGIN REVERSE <one of dist/dvel/pos/vel/dih/puck with TR = id and VR = 0>
+         EngineBase.propagate, frame 0: SYS holds the content of the shooting point's file,
+         FLAGIN its system.vel_rev, REVERSE the direction of the run
+         -> <order of frame 0 as stored> <vel_rev stored with the frame>   (propagate_frame0)
    VR is the vel_rev flag of EngineBase.calculate_order. *)
 
 let v3_of_string s =
@@ -49,7 +53,17 @@ let route : (string * string * string) option ref = ref None
 
 (* calculate_order(calc, vel_rev, xyz, vel, box) on the transformed system; with a route:
    calculate_order_args with the overrides selected by the mask *)
+let prop : (bool * bool) option ref = ref None
+let prop_rev = ref false
+
 let co calc s tr vr =
+  match !prop with
+  | Some (f, r) ->
+    if tr <> "id" || vr <> "0" || !route <> None then failwith "bad prop request" else
+    let a = sys_of_string s in
+    let (o, rv) = propagate_frame0 calc f r a.spos a.svel a.sbox in
+    prop_rev := rv; o
+  | None ->
   match !route with
   | None ->
     let s' = transform tr (sys_of_string s) in
@@ -80,6 +94,10 @@ let rec handle toks =
     route := Some (mask, conf, box0);
     let r = (try handle rest with e -> route := None; raise e) in
     route := None; r
+  | "prop" :: f :: r :: rest ->
+    prop := Some (bool_of_string_ f, bool_of_string_ r);
+    let o = (try handle rest with e -> prop := None; raise e) in
+    prop := None; o ^ " " ^ string_of_bool_ !prop_rev
   | ["pbc"; d; box] -> opt (string_of_list zs) (pbc_loop (zlist_of_string d) (zlist_of_string box))
   | ["pbc1"; d; l] ->
     let d = z_of_string d and l = z_of_string l in
